@@ -358,6 +358,85 @@ theorem stale_rejected (cs : List Core) (p d : Pkg) (hsh : Hash) (rest : List (P
     checkDeps cs p ((d, hsh) :: rest) = .error (.stale p d) := by
   simp [checkDeps, hf, hne]
 
+/-! ## P1b — acceptance is a statement about EVERY import edge
+
+`link_sound` uses only the direction "accepted → every edge matches". The converse directions below
+make the acceptance condition of `linkCores` an *iff* over the SET of import edges of the inputs: no
+reference to the order in which packages or dependencies are visited, to package names, or to where an
+edge sits in the graph. A stale edge anywhere (second importer of a shared dependency, below a package
+already seen, in a part Main does not reach) refuses the link. -/
+
+theorem checkDeps_ok_iff (cs : List Core) (p : Pkg) (deps : List (Pkg × Hash)) :
+    checkDeps cs p deps = .ok () ↔
+      ∀ d hsh, (d, hsh) ∈ deps → ∃ cd, findCore cs d = some cd ∧ cd.iface.hash = hsh := by
+  constructor
+  · exact checkDeps_ok
+  · intro h
+    induction deps with
+    | nil => rfl
+    | cons e rest ih =>
+      obtain ⟨d0, h0⟩ := e
+      obtain ⟨cd, hf, hh⟩ := h d0 h0 (List.mem_cons_self ..)
+      simp only [checkDeps, hf, hh, bne_self_eq_false, Bool.false_eq_true, if_false]
+      exact ih (fun d hsh hm => h d hsh (List.mem_cons_of_mem _ hm))
+
+theorem checkAll_ok_iff (all cs : List Core) :
+    checkAll all cs = .ok () ↔ ∀ c ∈ cs, checkDeps all c.pkg c.deps = .ok () := by
+  constructor
+  · exact checkAll_ok
+  · intro h
+    induction cs with
+    | nil => rfl
+    | cons c0 rest ih =>
+      simp only [checkAll, h c0 (List.mem_cons_self ..)]
+      exact ih (fun c hc => h c (List.mem_cons_of_mem _ hc))
+
+/-- **linkCores_ok_iff.** `link_cores` accepts exactly the non-empty, duplicate-free sets of cores that
+    contain Main and in which EVERY recorded dependency hash of EVERY input equals the interface hash of
+    the core given for that dependency. -/
+theorem linkCores_ok_iff (cs : List Core) :
+    linkCores cs = .ok () ↔
+      cs ≠ [] ∧ dupFree cs [] = .ok () ∧ (findCore cs "Main").isSome = true ∧
+      ∀ c ∈ cs, ∀ d hsh, (d, hsh) ∈ c.deps → ∃ cd, findCore cs d = some cd ∧ cd.iface.hash = hsh := by
+  simp only [linkCores]
+  cases cs with
+  | nil => simp
+  | cons c0 rest =>
+    simp only [List.isEmpty_cons, Bool.false_eq_true, if_false, ne_eq, reduceCtorEq, not_false_eq_true, true_and]
+    cases hdup : dupFree (c0 :: rest) [] with
+    | error e => simp
+    | ok u =>
+      cases hm : findCore (c0 :: rest) "Main" with
+      | none => simp
+      | some cm =>
+        simp only [Option.isNone_some, Bool.false_eq_true, if_false, Option.isSome_some, true_and]
+        rw [checkAll_ok_iff]
+        constructor
+        · intro h c hc
+          exact (checkDeps_ok_iff _ _ _).1 (h c ((mem_sortCores c _).2 hc))
+        · intro h c hc
+          exact (checkDeps_ok_iff _ _ _).2 (h c ((mem_sortCores c _).1 hc))
+
+/-- a single import edge whose pinned hash differs from the linked dependency refuses the whole link,
+    whichever input it belongs to and whatever else is among the inputs -/
+theorem stale_edge_rejected (cs : List Core) (c cd : Core) (d : Pkg) (hsh : Hash)
+    (hc : c ∈ cs) (he : (d, hsh) ∈ c.deps) (hf : findCore cs d = some cd) (hne : cd.iface.hash ≠ hsh) :
+    linkCores cs ≠ .ok () := by
+  intro h
+  obtain ⟨cd', hf', hh⟩ := ((linkCores_ok_iff cs).1 h).2.2.2 c hc d hsh he
+  rw [hf] at hf'
+  cases hf'
+  exact hne hh
+
+/-- … and so does an import edge whose target is not among the inputs -/
+theorem missing_edge_rejected (cs : List Core) (c : Core) (d : Pkg) (hsh : Hash)
+    (hc : c ∈ cs) (he : (d, hsh) ∈ c.deps) (hf : findCore cs d = none) :
+    linkCores cs ≠ .ok () := by
+  intro h
+  obtain ⟨cd', hf', _⟩ := ((linkCores_ok_iff cs).1 h).2.2.2 c hc d hsh he
+  rw [hf] at hf'
+  cases hf'
+
 /-! ## P3 — altered artefacts are rejected -/
 
 /-- a genuine core with any single *validated* field changed fails `validate`
@@ -468,6 +547,22 @@ example : (link demoH (run demoH (init demoImports) demoOps1) ["Main", "Lib", "B
   decide
 example : (link demoH (run demoH (init demoImports) demoOps2) ["Main", "Lib", "Base"]).isOk = false := by
   decide
+
+/-- a shared dependency with one fresh and one stale importer, under two namings: the shared package
+    sorts before / after its stale importer. Both are refused (`stale_edge_rejected` applies to the edge
+    of the second importer, which a walk that compares a package only on its first visit never looks at) -/
+def diamondImports (shared mid : Pkg) : Pkg → List Pkg := fun p =>
+  if p = "Main" then [shared, mid] else if p = mid then [shared] else []
+
+def diamondOps (shared mid : Pkg) : List Op :=
+  [.build shared, .build mid, .build "Main", .editIface shared 1, .build shared, .build "Main"]
+
+example : (link demoH (run demoH (init (diamondImports "Base" "Mid")) (diamondOps "Base" "Mid"))
+    ["Main", "Mid", "Base"]).isOk = false := by decide
+example : (link demoH (run demoH (init (diamondImports "Zeta" "Al")) (diamondOps "Zeta" "Al"))
+    ["Main", "Al", "Zeta"]).isOk = false := by decide
+example : (link demoH (run demoH (init (diamondImports "Base" "Mid")) (diamondOps "Base" "Mid" ++ [.build "Mid", .build "Main"]))
+    ["Main", "Mid", "Base"]).isOk = true := by decide
 end Demo
 
 end Goml.Link
